@@ -789,6 +789,22 @@ func replay(path string) {
 	var o outcome
 	var probe map[string]any
 	json.Unmarshal(rec.Replay, &probe)
+	if probe["kind"] == "numpos" {
+		var k numCase
+		json.Unmarshal(rec.Replay, &k)
+		single := func(place, kind string) *numOutcome {
+			so := evalNum(numCase{Kind: "numpos", Place: place, Top: "RulesBasedSampler", Rules: []string{kind}})
+			return &so
+		}
+		vs := numSignatures(k, evalNum(k), single)
+		os.RemoveAll(workRoot)
+		if len(vs) > 0 {
+			fmt.Printf("VIOLATION property=C38 replay=%s\n  detail: %s :: %s\n", path, vs[0].sig, vs[0].what)
+			os.Exit(1)
+		}
+		fmt.Println("replay: no violation (every setting preserved in toml, yaml and json)")
+		os.Exit(0)
+	}
 	if _, isCfg := probe["settings"]; isCfg {
 		var k cfgCase
 		json.Unmarshal(rec.Replay, &k)
@@ -882,6 +898,18 @@ func main() {
 		}
 	}
 
+	// numbers of a v1 JSON config file (quick tier; the thorough tier runs every case in JSON anyway): every numeric config
+	// setting (top level and inside a section), through the existing oracle
+	if !r.Thorough() {
+		for i, s := range settings {
+			if s.Kind == "int" || s.Kind == "bytes" {
+				cfgCases = append(cfgCases, cfgCase{Set: []int{i}, Names: []string{s.name()}, Format: "json"})
+			}
+		}
+	}
+	// numbers at every structural position of a rules file x the three input formats (numpos.go)
+	nCases, nBounds := numCases(r.Thorough())
+
 	if path := replayArg(); path != "" {
 		replay(path)
 	}
@@ -892,10 +920,24 @@ func main() {
 		ev.Harness("same conversion twice gives different results: %q vs %q", a.sig, b.sig)
 	}
 
+	// the three enumerations run next to each other (a number-position document evaluates its three renderings concurrently)
+	numOut := make([]numOutcome, len(nCases))
+	numDone := make([]bool, len(nCases))
+	var numWG sync.WaitGroup
+	numWG.Add(1)
+	go func() {
+		defer numWG.Done()
+		enumx.Each(r, "numpos", []int{len(nCases)}, 16, func(idx []int) { numOut[idx[0]] = evalNum(nCases[idx[0]]); numDone[idx[0]] = true })
+	}()
+	ruleOut := make([]outcome, len(ruleCases))
+	numWG.Add(1)
+	go func() {
+		defer numWG.Done()
+		enumx.Each(r, "rules", []int{len(ruleCases)}, 16, func(idx []int) { ruleOut[idx[0]] = evalRule(ruleCases[idx[0]]) })
+	}()
 	cfgOut := make([]outcome, len(cfgCases))
 	enumx.Each(r, "config", []int{len(cfgCases)}, 16, func(idx []int) { cfgOut[idx[0]] = evalCfg(cfgCases[idx[0]]) })
-	ruleOut := make([]outcome, len(ruleCases))
-	enumx.Each(r, "rules", []int{len(ruleCases)}, 16, func(idx []int) { ruleOut[idx[0]] = evalRule(ruleCases[idx[0]]) })
+	numWG.Wait()
 
 	var mu sync.Mutex
 	_ = mu
@@ -920,6 +962,49 @@ func main() {
 	for i, o := range ruleOut {
 		report(o, ruleCases[i], i)
 	}
+	singles := map[string]*numOutcome{}
+	for i, k := range nCases {
+		if numDone[i] && k.Top == "RulesBasedSampler" && len(k.Rules) == 1 {
+			singles[k.Place+"|"+k.Rules[0]] = &numOut[i]
+		}
+	}
+	numConversions, numAgree := 0, 0
+	for i, k := range nCases {
+		if !numDone[i] {
+			continue // deadline hit (the run is marked non-exhaustive by enumx)
+		}
+		o := numOut[i]
+		numConversions += len(numFormats)
+		if o.agree {
+			numAgree++
+		}
+		for _, n := range o.nontriv {
+			r.Distinct("distinct_nontrivial", n)
+			r.Distinct("numpos_distinct_number_positions_preserved", n)
+		}
+		vs := numSignatures(k, o, func(place, kind string) *numOutcome { return singles[place+"|"+kind] })
+		if len(vs) == 0 {
+			r.Distinct("distinct_outcomes", "preserved")
+		}
+		for _, v := range vs {
+			r.Distinct("distinct_outcomes", "numpos-"+strings.Split(v.sig, ":")[2])
+			r.Violation(v.sig, v.what, k)
+		}
+		if i%53 == 0 {
+			r.Sample(map[string]any{"case": k, "formats": numFormats, "all_settings_preserved_in_every_format": len(vs) == 0})
+		}
+	}
+	r.Add("evaluations", int64(numConversions-len(nCases))) // enumx counted one per document; every document is three conversions
+	r.Set("numpos_documents", len(nCases))
+	r.Set("numpos_conversions", numConversions)
+	r.Set("numpos_documents_whose_three_renderings_give_the_identical_v2_sampler", numAgree)
+	r.Set("numpos_bounds", map[string]any{"formats": numFormats, "placements": []string{"default", "dataset"}, "rule_lists": nBounds,
+		"rule_kinds": numRuleKinds, "conditions_per_rule": "0..2 (int, float, int+float)", "sampler_level_documents": numTopSamplers,
+		"numeric_settings": "SampleRate, condition value (int/float), GoalSampleRate, GoalThroughputPerSec, ClearFrequencySec, AdjustmentInterval, Weight, MaxKeys, AgeOutValue, BurstMultiple, BurstDetectionDelay - all set at once, values distinct per rule index"})
+	r.Set("numpos_rule", "one v1 rules document D rendered as TOML, YAML and JSON  =>  for each rendering: convert(D) yields a v2 file, it loads with the v2 loader/validator, and every setting of D (each number at its rule/condition/downstream-sampler position, seconds->duration) has the same effective v2 value; hence the three renderings agree")
+	r.Assume("ClearFrequencySec (integer seconds) is a valid v1 spelling of the Dynamic/TotalThroughput sampler interval: it is a setting the converter explicitly knows (ruleconvert.go transformSamplerMap), like the integer-seconds AdjustmentInterval of rules_complete.1.x.toml")
+	r.Assume("a v1 file may be TOML, YAML or JSON (converter --type T|Y|J, README; v1 read all three through viper): the same v1 content in any of the three is the same valid v1 file")
+
 	reads, notreads := 0, 0
 	for _, s := range settings {
 		if converterKnows(s) == "converter-reads-this-v1-name" {
